@@ -19,10 +19,10 @@ LEVEL_TEXT = ("Coq theorems about an executable rational model of the per-series
               "several series per call with NaN, ties, exact zero mean, all h below the series length, both methods and distributions. Proof is the "
               "right level for the symmetry/scale/interval relations (universally quantified over series); the numerical kernels outside Q "
               "(sqrt, norm/t cdf and ppf, FFT, least_squares) are evaluated by the host and compared.")
-LEVEL_NOTE = ("partial: sqrt, scipy.stats norm/t cdf and ppf, numpy FFT and scipy.optimize.least_squares are outside the model; the model returns the "
+LEVEL_NOTE = ("the HLN correction factor and the ci_upper / ci_lower expressions are regenerated from source (sites C19.hln, C19.ci) and proved equal to the model's; partial: sqrt, scipy.stats norm/t cdf and ppf, numpy FFT and scipy.optimize.least_squares are outside the model; the model returns the "
               "exact signed square of the statistic / the exact autocovariances and the harness applies the host functions to them (trusted)")
 TECHNIQUE = "Coq proof over an exact rational model of the estimators + extracted-model correspondence with host evaluation of sqrt/cdf/fit"
-SITES = []
+SITES = ["C19.hln", "C19.ci"]
 RULE = ("1-4 series per call, each 2-10 valid values on the dyadic grid k/2 (|k|<=6) drawn as random / exactly-zero-mean / all-zero / constant / "
         "two-valued (ties) / alternating, integer-dtype series, the same series in several units (x1e-6..x1e6) in one call, NaN cells inserted at random positions (series of different valid length in one call), the h "
         "coordinate drawn from 1..len-1 (a sweep entry uses every h below the length), method in {HLN,HG}, distribution in {normal,t}, "
